@@ -10,4 +10,10 @@ require (
 	google.golang.org/protobuf v1.27.1
 )
 
+require (
+	github.com/datadog/czlib v0.0.0-20160811164712-4bc9a24e37f2 // indirect
+	github.com/modern-go/concurrent v0.0.0-20180228061459-e0a39a4cb421 // indirect
+	github.com/paulmach/protoscan v0.2.1 // indirect
+)
+
 replace github.com/paulmach/osm => /repo
